@@ -141,11 +141,17 @@ class Stratified:
     def __init__(self, n, den):
         self.n, self.den, self.calls = n, den, 0
 
-    def random(self):
+    def _next(self):
         t, q = divmod(self.calls, self.n)
         self.calls += 1
         j = (t // self.den ** q) % self.den
         return (2 * j + 1) / (2 * self.den)
+
+    def random(self, size=None):
+        if size is None:
+            return self._next()
+        k = int(np.prod(size))
+        return np.array([self._next() for _ in range(k)]).reshape(size)
 
 
 class _Model:
